@@ -184,6 +184,48 @@ impl<T: Copy> std::ops::IndexMut<usize> for BArr<T> {
         &mut self.a[i]
     }
 }
+
+/// Stand-in for the `String` that ReCompiler::bracket collects digits into.
+#[derive(Clone, Copy)]
+pub(crate) struct BStr {
+    pub a: [char; 8],
+    pub n: usize,
+}
+impl BStr {
+    pub fn new() -> Self {
+        BStr { a: ['\0'; 8], n: 0 }
+    }
+    pub fn push(&mut self, c: char) {
+        kani::assert(self.n < 8, "standin BStr capacity exceeded");
+        self.a[self.n] = c;
+        self.n += 1;
+    }
+    /// `str::parse::<usize>` for a string of ASCII digits (what bracket pushes):
+    /// Err on an empty string, a non-digit, or overflow.
+    pub fn parse<T>(&self) -> Result<usize, ()> {
+        if self.n == 0 {
+            return Err(());
+        }
+        let mut v: usize = 0;
+        let mut i = 0;
+        while i < self.n {
+            let c = self.a[i];
+            if !(c >= '0' && c <= '9') {
+                return Err(());
+            }
+            v = match v.checked_mul(10) {
+                Some(x) => x,
+                None => return Err(()),
+            };
+            v = match v.checked_add((c as usize) - ('0' as usize)) {
+                Some(x) => x,
+                None => return Err(()),
+            };
+            i += 1;
+        }
+        Ok(v)
+    }
+}
 '''
 
 
@@ -343,6 +385,48 @@ pub(crate) mod slice_c13 {
         // ---- verbatim body of AnalyzeIter::compute_nesting_table ----
 %s
         // ---- end of verbatim block ----
+    }
+}
+''' % body)
+    # ---- C07: ReCompiler::bracket (whole body) --------------------------------
+    src = open(os.path.join(repo_dir, "regexml/src/re_compiler.rs"), encoding="utf-8").read()
+    ms = list(re.finditer(r"\n    fn bracket\(&mut self\)\s*->\s*Result<\(\), Error>\s*\{", src))
+    if len(ms) != 1:
+        raise CannotEncode("anchor for ReCompiler::bracket not found exactly once")
+    b0 = ms[0].end()
+    b1 = _match_brace(src, b0, "ReCompiler::bracket")
+    body = src[b0:b1]
+    info["slices"]["c07_bracket"] = {"file": "regexml/src/re_compiler.rs", "first_line": src.count("\n", 0, b0) + 1,
+                                     "lines": body.count("\n") + 1, "anchor": "fn bracket(&mut self) -> Result<(), Error> {"}
+    info["standins"].append("slice_c07::{View{pattern,len,idx,bracket_min,bracket_max}, String -> BStr (push, parse::<usize>), Error{Internal,Syntax}}: what ReCompiler::bracket touches")
+    out.append('''
+pub(crate) mod slice_c07 {
+    #![allow(unused)]
+    use super::{BArr, BStr};
+    #[allow(non_camel_case_types)]
+    type String = BStr;
+    pub(crate) enum Error {
+        Internal,
+        Syntax,
+    }
+    impl Error {
+        pub(crate) fn syntax<T>(_s: T) -> Error {
+            Error::Syntax
+        }
+    }
+    pub(crate) struct View {
+        pub pattern: BArr<char>,
+        pub len: usize,
+        pub idx: usize,
+        pub bracket_min: usize,
+        pub bracket_max: usize,
+    }
+    impl View {
+        pub(crate) fn bracket(&mut self) -> Result<(), Error> {
+            // ---- verbatim body of ReCompiler::bracket ----
+%s
+            // ---- end of verbatim block ----
+        }
     }
 }
 ''' % body)
